@@ -197,6 +197,23 @@ def chk_member(inp):
     both('selectnotin', table, lambda r: not isin(r), lambda comp: etl.selectnotin(table, field, cont, complement=comp))
 
 
+def _member_special_inputs(tier, seed):
+    # a string as the container (substring semantics of `in`) over text cells; unhashable cells against a hashable container
+    yield ([('f',), ('a',), ('ab',), ('abc',), ('d',), ('',), ('ca',)], 'f', 'abc')
+    yield ([('f', 'g'), ('bc', 1), ('x', 2)], 'f', 'abc')
+    yield ([('f',), ([1],), (1,), ([],), ((1,),)], 'f', (1, 2, (1,)))
+    yield ([('f', 'g'), ({'k': 1}, 0), (2, 1)], 'f', [2, 3])
+
+
+@group('member.special', _member_special_inputs)
+def chk_member_special(inp):
+    table, field, cont = inp
+    j = fidx(table[0], field)
+    isin = lambda r: cell(r, j) in cont                  # the documented test: `value in container`, whatever the container is
+    both('selectin', table, isin, lambda comp: etl.selectin(table, field, cont, complement=comp))
+    both('selectnotin', table, lambda r: not isin(r), lambda comp: etl.selectnotin(table, field, cont, complement=comp))
+
+
 CELLS_U = [None, 0, 1, '', 'a', (), (0,), [], False]
 
 
